@@ -63,12 +63,47 @@ func inList(xs []string, x string) bool {
 }
 
 func (o *authOracle) Step(e *Env, si *StepInfo) {
+	if si.Kind == "end" {
+		o.c09end(e, si)
+	}
 	if si.Kind != "tx" || !si.OK || si.Op == nil {
 		return
 	}
 	o.c09(e, si)
 	o.c10(e, si)
 	o.c19(e, si)
+}
+
+// c09end: outside transactions a data model changes only at the scheduled end of its own lifetime
+// or by the rollback of its own in-flight order that the timeout scan has just given up.
+func (o *authOracle) c09end(e *Env, si *StepInfo) {
+	prev, cur := si.Prev, si.Cur
+	if prev.Model == cur.Model {
+		return
+	}
+	for _, id := range sortedKeys(prev.Model.Metas) {
+		pm := prev.Model.Metas[id]
+		cm, has := cur.Model.Metas[id]
+		what := ""
+		if !has {
+			what = "existence(removed)"
+		} else {
+			what = metaProtectedDiff(pm, cm)
+		}
+		if what == "" {
+			continue
+		}
+		if !has && pm.CreatedAt+pm.Duration == uint64(si.Height) {
+			continue // scheduled end of life
+		}
+		if _, had := prev.Order.Orders[pm.OrderId]; had {
+			if _, still := cur.Order.Orders[pm.OrderId]; !still {
+				continue // its own in-flight (or last) order ended in this block: rollback / expiry
+			}
+		}
+		o.once(e, "C09", "C09.endblock", "end", "model-changed-without-authority:"+what, id+what,
+			fmt.Sprintf("data model %s: %s changed by the end-blocker of height %d although neither its lifetime ended (created %d + duration %d) nor its own current order %d ended in this block", id, what, si.Height, pm.CreatedAt, pm.Duration, pm.OrderId))
+	}
 }
 
 func (o *authOracle) c09(e *Env, si *StepInfo) {
@@ -152,6 +187,10 @@ func (o *authOracle) c09(e *Env, si *StepInfo) {
 			// automatic rollback of a cancelled update (who may cancel is C10's question)
 			ok = what == "status" || what == "commit" || what == "order-link" || what == "lifetime" || what == "existence(removed)" || what == "cid"
 			why = "cancel changed more than the in-flight fields"
+			if mc, isC := si.Built.Msgs[0].(*saotypes.MsgCancel); ok && isC && had && pm.OrderId != mc.OrderId {
+				ok = false
+				why = fmt.Sprintf("the cancelled order %d is not the model's in-flight order (%d): the rollback hit a model the order does not belong to", mc.OrderId, pm.OrderId)
+			}
 		default:
 			why = "this message type must not change a data model"
 		}
